@@ -638,7 +638,7 @@ func (r *Raft) AddServer(
 
 	// The provided node is already a part of the cluster.
 	if r.isMember(id) && r.isVoter(id) == isVoter {
-		respond(configurationFuture.responseCh, *r.configuration, nil)
+		respond(configurationFuture.responseCh, r.configuration.Clone(), nil)
 		return configurationFuture
 	}
 
@@ -705,7 +705,7 @@ func (r *Raft) RemoveServer(id string, timeout time.Duration) Future[Configurati
 
 	// The provided node is already removed from the cluster.
 	if !r.isMember(id) {
-		respond(configurationFuture.responseCh, *r.configuration, nil)
+		respond(configurationFuture.responseCh, r.configuration.Clone(), nil)
 		return configurationFuture
 	}
 
